@@ -4,7 +4,7 @@ import math
 import re
 
 from ..core import World, Violation, Skip
-from ..filekit import FileKit, WRITE_FAULTS, READ_FAULTS, gen_fault, gen_jump
+from ..filekit import FileKit, WRITE_FAULTS, READ_FAULTS, gen_fault, gen_alloc, gen_jump
 
 H2O_LOW = [4.19864056E+00, -2.03643410E-03, 6.52040211E-06, -5.48797062E-09, 1.77197817E-12, -3.02937267E+04,
            -8.49032208E-01]
@@ -62,7 +62,7 @@ class WorldC06(World):
     STATE_RULE = 'per path: (absent | undefined | which file kind it holds), number of models, writes so far bucket'
     PROBES = ('gas-reaction-in-mechanism', 'adsorption-reaction', 'surface-reaction-with-ts', 'surface-reaction-without-ts',
               'two-or-three-sites', 'stoich-2-or-3', 'text-path', 'file-path', 'crlf-newline', 'overwrite',
-              'write-after-failed-write', 'recovery-after-fault', 'read-back-gas', 'read-back-surf', 'read-of-torn-file',
+              'write-after-failed-write', 'recovery-after-fault', 'alloc-failure-signalled', 'alloc-failure-over-existing-file', 'read-back-gas', 'read-back-surf', 'read-of-torn-file',
               'read-absent', 'fault-did-not-fire', 'clock-jump-before-write', 'same-model-written-twice',
               'dimensionless-activation', 'gibbs-activation', 'eight-conditions', 'custom-delimiters',
               'mole-fraction-missing-species', 'EA-gas', 'EA-surface', 'reactants-gas-products-surface',
@@ -319,6 +319,8 @@ class WorldC06(World):
         fault = None
         if o['to_file'] and wf and rng.random() < sw['fault_rate']:
             fault = gen_fault(rng, wf)
+        if o['to_file'] and fault is None:
+            fault = gen_alloc(rng)
         return {'c': c, 'op': kind, 'fault': fault, 'jump': jump,
                 'args': {'model': mid, 'path': path, 'opts': o, 'enum': sw['enum'] and o['to_file'] and rng.random() < 0.3}}
 
